@@ -352,7 +352,15 @@ class ProgGen:
     def call_stmt(self, vars_):
         f = self.choice(self.funcs)
         f["calls"] += 1
-        call = f"{f['name']}({', '.join(self.arg(vars_) for _ in range(f['npar']))})"
+        args = [self.arg(vars_) for _ in range(f["npar"])]
+        if self.cfg.d5_args and args and f.get("wglobals") and self.chance(45):
+            # F-D5 shape on purpose (only for oracles that do not consult the source semantics): a global
+            # that the callee itself declares `global`, passed by bare name
+            g = self.choice(f["wglobals"])
+            if g in vars_:
+                args[self.n(0, len(args) - 1)] = g
+                self.features.add("d5-arg-shape")
+        call = f"{f['name']}({', '.join(args)})"
         if f["has_ret"] and self.chance(75):
             wv = [x for x in vars_ if x not in self.ro]
             k = self.n(0, 2)
@@ -506,7 +514,7 @@ class ProgGen:
             L.append(f"    {f['name']}({', '.join(self.arg(vars_) for _ in range(f['npar']))})")
         self.ro = ro_before | {p for p in params}
         self.frozen = frozen_before
-        self.funcs.append({"name": name, "npar": npar, "has_ret": has_ret, "calls": 0})
+        self.funcs.append({"name": name, "npar": npar, "has_ret": has_ret, "calls": 0, "wglobals": list(writable)})
         return L
 
     def program(self):
